@@ -12,7 +12,7 @@ func mixedProfile() *harness.Profile {
 		Conf:     harness.ConfOpts{MaxDepth: 2, Limits: true, MaxApps: true, Quotas: true, Templates: true, FifoOnly: true},
 		Opts:     harness.WorldOpts{ReserveNow: true},
 		Weights:  harness.BaseWeights(),
-		MinSteps: 10, MaxSteps: 60,
+		MinSteps: 10, MaxSteps: 80,
 		NodeLo: 6, NodeHi: 24, AskLo: 1, AskHi: 8,
 		GangProb: 30, ReqNodeProb: 8, PreemptProb: 20, OldAskProb: 50, BadQueueProb: 5, TagQuotaProb: 10,
 		Epilogue: true, Warmup: true,
